@@ -95,3 +95,18 @@ Print Assumptions C10_reachable_cycles.
 Theorem C10_reachable_cycles_unrestricted_refuted : ~ (forall nw, stmt_reachable_trans nw).
 Proof. exact reachable_trans_refuted. Qed.
 Print Assumptions C10_reachable_cycles_unrestricted_refuted.
+
+(** formations: "a vehicle is in the formation of a node exactly if its tour contains the node, never twice" — for every
+    history with valid Path arguments over a well-formed network whose listed maintenance ids are maintenance nodes
+    (true of every loaded network; without that hypothesis the statement is refuted by a network RECORD that lists a
+    depot as maintenance node) *)
+From RS Require Import SchedFormsFacts.
+Theorem C10_reachable_formations :
+  forall nw, net_ok_b nw = true -> NoDup (coverable_nodes nw) ->
+    (forall m, In m (nw_maint nw) -> is_maint (nd nw m) = true) ->
+    forall s, vreachable nw s -> FormsOK nw s.
+Proof. exact vreachable_forms_under_maint_listed. Qed.
+Print Assumptions C10_reachable_formations.
+Theorem C10_reachable_formations_unrestricted_refuted : ~ (forall nw, stmt_vreachable_forms nw).
+Proof. exact vreachable_forms_refuted. Qed.
+Print Assumptions C10_reachable_formations_unrestricted_refuted.
